@@ -210,12 +210,19 @@ def main():
     for un, (u, runs, wall) in results.items():
         verified_somewhere.update(u.verified_contracts)
     dangling = []
+    degraded = []
     for un, (u, runs, wall) in results.items():
+        deg = {d['contract'] for d in u.degraded}
+        degraded += [f'{un}:{d["contract"]} ({d["reason"]})' for d in u.degraded]
         for a in u.assumed_contracts:
-            if a not in verified_somewhere:
+            if a not in verified_somewhere and a not in deg:
                 dangling.append(f'{un}:{a}')
     if dangling:
         undecided(f'assumed contracts not proved in the cone: {dangling}')
+    # a function that could not be brought into the verifier's reach (lost anchor / rule no longer applicable) was emitted as an
+    # assumed contract: without a definite failure elsewhere the property is UNDECIDED, never an alarm and never a pass
+    if degraded and not violations:
+        undecided(f'function(s) outside the verifier\'s reach, emitted as assumed: {degraded}')
 
     os.makedirs(EVID, exist_ok=True)
     os.makedirs(REPLAY, exist_ok=True)
@@ -270,6 +277,8 @@ def main():
         'wall_s': round(wall, 2),
         'violations': len(violations),
     }
+    if degraded:
+        ev['coverage']['functions_degraded_to_assumed'] = degraded
     with open(os.path.join(EVID, pid + '.json'), 'w') as f:
         json.dump(ev, f, indent=1)
     for l in out_lines:
